@@ -72,8 +72,37 @@ struct MPath {
     int nelem = 1;       // parallel elements (a simple path with several: straight axis-parallel spine only)
     dg_t sep = 0;        // separation between elements
     int join = 0;        // 0 natural, 1 miter, 2 bevel, 3 round
+    std::vector<dg_t> voffs;  // simple single-element FlexPath on a straight axis-parallel spine: offset of the
+                              // element from the spine at every vertex (the centre line written is the spine displaced)
+    double tol_steps = 0;     // simple FlexPath: its own tolerance in grid steps (0: the library default of 0.01); a
+                              // vertex closer than that to the last vertex kept is not written
     double prescale = 1; // built at 1/prescale of its size and then scaled up by the library's own scale() (a power of two)
 };
+
+// the centre line a simple path is written with: the spine, displaced sideways by the per-vertex offsets where
+// the path has them (straight axis-parallel spines only, where the displacement is exact; the normal is the
+// direction of travel turned left)
+inline std::vector<Pt> centre_line(const MPath& p) {
+    std::vector<Pt> s = p.spine;
+    if (p.tol_steps > 0 && p.voffs.empty()) {
+        // the writer's thinning rule, in exact arithmetic (tolerances are k + 0.05 steps: the comparison is never a tie)
+        const double t = p.tol_steps * 10;
+        std::vector<Pt> kept;
+        for (auto& q : s) {
+            if (!kept.empty()) {
+                double dx = (double)(q.x - kept.back().x), dy = (double)(q.y - kept.back().y);
+                if (dx * dx + dy * dy < t * t) continue;
+            }
+            kept.push_back(q);
+        }
+        s.swap(kept);
+    }
+    if (p.voffs.size() != s.size() || s.size() < 2) return s;
+    dg_t dx = s.back().x - s[0].x, dy = s.back().y - s[0].y;
+    dg_t nx = dy > 0 ? -1 : (dy < 0 ? 1 : 0), ny = dx > 0 ? 1 : (dx < 0 ? -1 : 0);
+    for (size_t i = 0; i < s.size(); i++) s[i] = Pt{s[i].x + nx * p.voffs[i], s[i].y + ny * p.voffs[i]};
+    return s;
+}
 
 struct MLabel {
     std::string text;
@@ -305,6 +334,12 @@ inline J to_json(const MPath& p) {
     if (!p.props.empty()) j.set("props", to_json(p.props));
     j.set("impl", p.impl);
     if (p.prescale != 1) j.set("prescale", p.prescale);
+    if (p.tol_steps > 0) j.set("tol_steps", p.tol_steps);
+    if (!p.voffs.empty()) {
+        J a = J::arr();
+        for (dg_t v : p.voffs) a.push((int64_t)v);
+        j.set("voffs", a);
+    }
     if (!p.simple) {
         j.set("simple", false);
         j.set("nelem", p.nelem);
@@ -339,6 +374,9 @@ inline MPath path_from(const J& j) {
     p.sep = j.geti("sep");
     p.join = (int)j.geti("join");
     p.prescale = j.has("prescale") ? j.getd("prescale", 1) : 1;
+    p.tol_steps = j.getd("tol_steps", 0);
+    if (j.has("voffs"))
+        for (auto& v : j.at("voffs").a) p.voffs.push_back((dg_t)v.i);
     return p;
 }
 inline J to_json(const MLabel& l) {
